@@ -441,11 +441,29 @@ fn run_until_none(d: &mut SDriver, rng: &mut Rng, chunk: &mut Chunking, pol: &Po
     sd::run_schedule_ext(d, rng, chunk, pol, plans, order, Some(model), true);
 }
 
+/// The conversion chain as driven by `Token::run`, with look-ahead that holds the next request(s).
+fn async_chain(c: &mut Case) {
+    use crate::conn::{self, GenOpts};
+    let mut case = conn::gen_conn(&mut c.rng, &GenOpts { max_requests: 3, extra_pct: 10, big: false, keep_conn_pct: 100, no_begin_extras: false });
+    if case.reqs.iter().any(|r| r.preamble.role == wire::AUTHORIZER) {
+        // no terminator behind which look-ahead can wait (DESIGN §9.4)
+        return;
+    }
+    conn::make_pipelined(&mut case);
+    let before = c.l.counters.get("connections_reused").copied().unwrap_or(0);
+    crate::c07::run_case(c, case);
+    let reused = c.l.counters.get("connections_reused").copied().unwrap_or(0) - before;
+    c.l.add("async_chain_connections_reused", reused);
+}
+
 pub fn run(ctx: &Ctx, evidence: Option<&PathBuf>) -> i32 {
     ctx.run_fixed("directed", if ctx.miri() { 2 } else { ctx.dn(300) }, run_chain);
     let n = ctx.size3(30_000, 3_000_000, 3);
     ctx.run_cases("chains", n, run_chain);
     let _ = Scale::Full;
+    // the crate's own user of the conversion chain (Token::run) with the whole next request in the
+    // look-ahead at the stream -> request hand-off
+    ctx.run_cases("async-chain", ctx.size3(1_500, 150_000, 2), async_chain);
     ctx.gate("handoffs_stream_to_request", 500);
     ctx.gate("handoff_lookahead_0", 20);
     ctx.gate("handoff_lookahead_partial_header", 20);
@@ -457,6 +475,9 @@ pub fn run(ctx: &Ctx, evidence: Option<&PathBuf>) -> i32 {
     ctx.gate("final_into_input_checked", 100);
     ctx.gate("fed_after_done", 100);
     ctx.gate("direct_conversions_with_unconsumed_stream_buffer", 50);
+    if !ctx.miri() {
+        ctx.gate("async_chain_connections_reused", 100);
+    }
     ctx.finish(
         "exploration",
         "chains of k=1..6 requests (all roles, same or different ids, interleaved management / stray records, optional partial record at the very end) through request::Parser -> into_stream_parser -> \
@@ -464,6 +485,8 @@ pub fn run(ctx: &Ctx, evidence: Option<&PathBuf>) -> i32 {
          (sizes 24..8192) and independent chunkings per phase, final into_input(). At every hand-off: into_request().1 and clone().into_input() equal the exact unread suffix (bytes + offset, which must be a record start), \
          every request's id/role/flags/environment and stream contents equal the reference model from the hand-off offset AND (read-all mode) the same request parsed on a separate connection; stale records of abandoned requests produce only the replies the model owes. \
          Domain note: when streams are left unread the next request's bytes are fed only after the hand-off (one outstanding request per connection); behind a held terminator any amount of look-ahead incl. the next request is buffered. \
+         Async chain: keep-alive connections of 1..3 Responder/Filter requests sent by a client that does not wait for EndRequest (everything in one piece, 8 KiB buffer) through Token::run with handlers that read their streams to the end: \
+         the k handler invocations see exactly the k environments and stream contents of the model and every request is answered (full C07 oracle). \
          distinct_nontrivial = distinct multi-request chain digests completed (set).",
         &["reference model spec.rs", "clone().into_input() is a faithful non-destructive probe of the hand-off state"],
         false,
